@@ -37,7 +37,7 @@ func init() {
 		if tier == "thorough" {
 			n = e + 4000
 		}
-		return Plan{Runs: n, Enumerated: e, Exhaustive: tier == "thorough", Level: "fault_enumeration", Rule: "enumerated runs: every truncation point (prefix length 0..len-1) of a valid DER CRL and of its PEM form, delivered on the handshake-time first-load path (all points) and on the provision-file and refresh paths (all points in thorough, every 4th in quick), plus a fixed list of valid-but-unusual documents (v1, v2 without crlExtensions, no revoked entries, no nextUpdate) on all three paths; further runs: tape-chosen structure-aware mutations (a TLV header's length rewritten to 0x80..0x8f forms / 2^31-1 / 2^63 / beyond the remaining bytes, tag swaps, nesting, random bytes, broken PEM armour, very long lines, hostile authorityKeyIdentifier values) on a tape-chosen path and backend; oracle: no panic or process death, every call returns, allocation of the whole step that parses (including logging and harness bookkeeping, hence the generous constant) <= 64 MiB + 64 x size, with the address space of the run capped at 8 GiB so that a giant allocation kills only that run, a later good delivery is processed; non-trivial = the delivered bytes differ from a valid CRL"}
+		return Plan{Runs: n, Enumerated: e, Exhaustive: tier == "thorough", Level: "fault_enumeration", Rule: "enumerated runs: every truncation point (prefix length 0..len-1) of a valid DER CRL and of its PEM form, delivered on the handshake-time first-load path (all points) and on the provision-file and refresh paths (all points in thorough, every 4th in quick), a fixed list of valid-but-unusual documents, and every TLV header of the DER document x 9 structural edits (tag swaps, length +1/-1, indefinite and giant lengths, element dropped) (v1, v2 without crlExtensions, no revoked entries, no nextUpdate) on all three paths; further runs: tape-chosen structure-aware mutations (a TLV header's length rewritten to 0x80..0x8f forms / 2^31-1 / 2^63 / beyond the remaining bytes, tag swaps, nesting, random bytes, broken PEM armour, very long lines, hostile authorityKeyIdentifier values) on a tape-chosen path and backend; oracle: no panic or process death, every call returns, allocation of the whole step that parses (including logging and harness bookkeeping, hence the generous constant) <= 64 MiB + 64 x size, with the address space of the run capped at 8 GiB so that a giant allocation kills only that run, a later good delivery is processed; non-trivial = the delivered bytes differ from a valid CRL"}
 	}, Run: runC07})
 }
 
@@ -58,7 +58,15 @@ func c07docs(h *Harness, w *World) (der, pem *CRLSpec) {
 
 var c07unusual = []string{"v1", "v2-no-extensions", "no-entries", "no-nextupdate", "no-entries-no-extensions", "empty", "v3", "critical-unknown"}
 
+const c07tlvMax = 72
+
+var c07structVariants = []string{"tag:=31", "tag:=04", "tag:=30", "len+1", "len-1", "len:=80", "len:=847fffffff", "len:=8410000000", "drop"}
+
 func c07enumCount(tier string) int {
+	return c07truncCount(tier) + c07tlvMax*len(c07structVariants)
+}
+
+func c07truncCount(tier string) int {
 	// lengths are fixed by the generator: DER 4-entry ECDSA CRL and its PEM form. The exact numbers are
 	// computed at run time; the plan uses generous upper bounds and runs past the end are reported as such.
 	derLen, pemLen := 520, 760
@@ -169,7 +177,49 @@ func runC07(h *Harness) {
 		}, "refresh"},
 	}
 	done := false
-	if idx < enum {
+	if idx >= c07truncCount(h.Tier) && idx < enum {
+		// structural edits, enumerated: every TLV header of the DER document x variant, on the first-load path and
+		// (every third) on the refresh path
+		j := idx - c07truncCount(h.Tier)
+		ti, vi := j/len(c07structVariants), j%len(c07structVariants)
+		var ts []tlv
+		walkDER(derDoc.Bytes, 0, 0, &ts)
+		if ti >= len(ts) {
+			h.Probe("tlv-index-past-end")
+			sc["skipped"] = "TLV index beyond the document"
+			h.R.Sample = map[string]any{"skipped": true}
+			return
+		}
+		t := ts[ti]
+		b := append([]byte(nil), derDoc.Bytes...)
+		v := c07structVariants[vi]
+		switch v {
+		case "tag:=31":
+			b[t.off] = 0x31
+		case "tag:=04":
+			b[t.off] = 0x04
+		case "tag:=30":
+			b[t.off] = 0x30
+		case "len+1":
+			b[t.off+t.hdr-1]++
+		case "len-1":
+			b[t.off+t.hdr-1]--
+		case "len:=80":
+			b = append(append(append([]byte(nil), b[:t.off+1]...), 0x80), b[t.off+t.hdr:]...)
+		case "len:=847fffffff":
+			b = append(append(append([]byte(nil), b[:t.off+1]...), 0x84, 0x7f, 0xff, 0xff, 0xff), b[t.off+t.hdr:]...)
+		case "len:=8410000000":
+			b = append(append(append([]byte(nil), b[:t.off+1]...), 0x84, 0x10, 0, 0, 0), b[t.off+t.hdr:]...)
+		case "drop": // the element is missing altogether (enclosing lengths left as they are)
+			b = append(append([]byte(nil), b[:t.off]...), b[t.off+t.hdr+t.length:]...)
+		}
+		body, desc = b, fmt.Sprintf("struct %s at TLV %d (offset %d, depth %d)", v, ti, t.off, t.depth)
+		if ti%3 == 2 {
+			path = "refresh"
+		}
+		backend = []string{"memory", "disk"}[h.Idx%2]
+		done = true
+	} else if idx < enum {
 		for _, s := range seg {
 			if idx < s.n {
 				s.f(idx)
